@@ -68,7 +68,29 @@ CLAIM = {
             'correspondence, all comparisons relative.  R7 long-lived objects (solver and channel objects re-used, '
             're-randomised, re-initialised, path loss switched, attributes and metric changed, one channel shared by '
             'several solvers) - theorems set_metric_like_fresh / metric_history for the configuration, oracle (equal to '
-            'fresh objects + property) and correspondence (tapped run on the long-lived objects) for the rest.',
+            'fresh objects + property) and correspondence (tapped run on the long-lived objects) for the rest.  '
+            'R8 argument forms (positional / keyword / default / explicit None for every parameter of the three classes, '
+            'the module functions and the metric setter; constructor vs attribute replacement; equivalent entry points: '
+            'module functions vs methods, calc_receive_filter forms, None vs "None", EnhancedBD[None] vs BlockDiagonalizer, '
+            'naive[num_streams=N] vs None) - oracle + correspondence on keyword / attribute-configured objects; model side '
+            'set_metric_like_fresh; length-1 arrays for the scalar parameters are not accepted by the API (documented floats).  '
+            'R9 index forms (python int, bool, int8..int64, uint8..uint64, intp, 0-d arrays for the user index of '
+            '_get_sub_channel / _get_tilde_channel, values above 256; negative indexes are not documented) - theorem '
+            'rows_selected_by_user_value + correspondence of the selected rows with the model ops tidx / sidx + oracle.  '
+            'R10 heterogeneous collections (iterables of users of mixed integer types, list / tuple / range / ndarray of '
+            'every integer dtype; NtE as int / numpy int / list / tuple / array / mixed list, Nr and Nt of different dtypes) - '
+            'oracle + correspondence; there is no list-of-arrays argument in this API.  R11 non-mutating calls (repr, '
+            'metric_name, calc_whitening_matrices, covariance queries, slicing helpers, the inherited water-filling method, '
+            'static filter / SINR helpers, channel getters) inside the shared-channel histories, with solver and channel '
+            'noise values that differ - oracle only.  R12 insertion order / extra keys of the metric argument dictionary - '
+            'oracle + correspondence, model side set_metric_copies_needed_keys; users are positional blocks, so no other '
+            'container order applies.  R13 derived objects (copy / deepcopy / pickle of configured solvers, parent and child '
+            'mutated afterwards in both directions; per-user outputs are covered by R3) - oracle + correspondence on derived '
+            'objects.  R14 counts (K = 257, 258, 260, 300 single-antenna, 129 / 150 two-antenna users, 257 / 258 antennas '
+            'per user; 2^16 + 1 users for the row bookkeeping) - the theorems hold for every K and N; correspondence of the '
+            'row bookkeeping; whole-method and everything-after-the-null-space oracles run in a child interpreter with '
+            'single-threaded BLAS (a 260 x 260 case costs ~10 s there and is unpredictable otherwise); the tapped '
+            'whole-method correspondence is not run at these sizes (its driver input would be hundreds of MB).',
 }
 
 EPS = 2.220446049250313e-16
@@ -92,15 +114,18 @@ def enc(a):
     return {'shape': list(a.shape), 'kind': 'f', 'data': [float(z) for z in flat]}
 
 
-def enc_seeded(seed, shape, cplx=True):
-    return {'shape': list(shape), 'kind': 'seeded', 'seed': int(seed), 'cplx': bool(cplx)}
+def enc_seeded(seed, shape, cplx=True, shift=0.0):
+    return {'shape': list(shape), 'kind': 'seeded', 'seed': int(seed), 'cplx': bool(cplx), 'shift': float(shift)}
 
 
 def dec(d):
     if d['kind'] == 'seeded':       # standard gaussian entries from numpy's legacy generator: deterministic
         rs = np.random.RandomState(d['seed'])
         a = rs.randn(*d['shape'])
-        return (a + 1j * rs.randn(*d['shape'])) / math.sqrt(2) if d['cplx'] else a
+        a = (a + 1j * rs.randn(*d['shape'])) / math.sqrt(2) if d['cplx'] else a
+        if d.get('shift'):      # G + z.1 with |z| twice the spectral radius of G: dense, generic, condition number < 10
+            a = a + d['shift'] * np.eye(*d['shape'])
+        return a
     if d['kind'] == 'c':
         a = np.array([complex(re, im) for re, im in d['data']], dtype=complex)
     else:
@@ -434,6 +459,10 @@ class Gen:
             K, N = r.randint(2, 6), r.randint(1, 3)
             users = list(range(K))
             forms = True
+        elif size == 'medium':                    # user indices that fit a narrow type while the ROW indices do not
+            K, N = r.randint(130, 256), r.randint(2, 3)
+            users = sorted(set([0, 1, 127, 128, 129, K - 1] + [r.below(K) for _ in range(4)]))
+            forms = True
         elif size == 'huge':                      # 2^16 + 1 users: only the row bookkeeping is affordable
             K, N = 65537, 1
             users = [0, 256, 257, 32768, 65535, 65536]
@@ -447,9 +476,14 @@ class Gen:
             case['rb'] = {'K': r.choice(['int16', 'uint16', 'int32', 'int64'])}
         picks = sorted(set([0, K - 1, K // 2] + [r.below(K) for _ in range(3)]))
         case['collections'] = [{'users': picks, 'kind': k} for k in
-                               ('list', 'tuple', 'list-mixed', 'ndarray:int64', 'ndarray:uint16', 'ndarray:int32')]
+                               ('list', 'tuple', 'list-mixed', 'ndarray:int64', 'ndarray:uint16', 'ndarray:int32')
+                               if not (k == 'ndarray:uint16' and K > 65535)]
         if K >= 3:
             case['collections'].append({'users': [0, 2] if K < 6 else [1, 3, 5], 'kind': 'range'})
+        if K <= 256:
+            case['collections'].append({'users': picks, 'kind': 'ndarray:uint8'})
+        if K <= 128:
+            case['collections'].append({'users': picks, 'kind': 'ndarray:int8'})
         return case
 
     def large_case(self, variant, shape, method='nowf', metric=None):
@@ -457,11 +491,8 @@ class Gen:
         r = self.rng
         K, N = shape
         T = K * N
-        for _ in range(20):
-            seed = r.randint(0, 1 << 30)
-            henc = enc_seeded(seed, (T, T))
-            if np.linalg.cond(dec(henc)) <= 2e4:
-                break
+        seed = r.randint(0, 1 << 30)
+        henc = enc_seeded(seed, (T, T), shift=2.0 * math.sqrt(T))     # (no svd here: see run_isolated)
         case = {'variant': variant, 'K': K, 'N': N, 'H': henc, 'iPu': 10.0 ** r.uniform(-1, 1), 'nv': 10.0 ** r.uniform(-3, 0),
                 'gen': 'seeded-gauss', 'scale': 1.0, 'size': 'large'}
         if variant == 'bd':
@@ -498,6 +529,7 @@ class Gen:
         case['nv'] = max(case['nv'], 1e-3) if case.get('scale', 1.0) == 1.0 else case['nv']
         case['scale'] = 1.0
         case['nv'] = 10.0 ** r.uniform(-3, 0)
+        case['nv_solver'] = case['nv'] * 3 + 0.125
         steps = []
         names = ['white'] + METRICS
         for _ in range(r.randint(3, 6)):
@@ -1289,9 +1321,10 @@ def o_shared(case):
     K, N = case['K'], case['N']
     rs = np.random.RandomState(case['seed'])
     ch = MU()
-    solvers = {'white': bd.WhiteningBD(K, case['iPu'], case['nv'], case['pe'])}
+    nvs = case.get('nv_solver', case['nv'])      # the solvers' own noise attribute differs from the channel's
+    solvers = {'white': bd.WhiteningBD(K, case['iPu'], nvs, case['pe'])}
     for m in METRICS:
-        o = bd.EnhancedBD(K, case['iPu'], case['nv'], case['pe'])
+        o = bd.EnhancedBD(K, case['iPu'], nvs, case['pe'])
         o.set_ext_int_handling_metric(m, {'num_streams': case['ns'], 'modulator': make_modulator(case['mod']),
                                           'packet_length': case['plen']} if m != 'None' else None)
         solvers[m] = o
@@ -1331,7 +1364,7 @@ def o_shared(case):
                 ms, wk, ns = o.block_diagonalize_no_waterfilling(ch)
             except Exception as e:
                 return ('R7:exception:%s:%s' % (type(e).__name__, tag), 'step %d: %r' % (step, e))
-            if not np.array_equal(ch.big_H, full_now):
+            if not np.array_equal(ch.big_H, full_now) or ch.noise_var != case['nv']:
                 return ('R7:shared-channel-modified:' + tag, 'step %d' % step)
             r = check_offdiag(h, list(ms), N, 'R7:' + tag)
             if r:
@@ -1345,6 +1378,7 @@ def o_shared(case):
                           'E': enc(full_now[:, K * N:])})
             fcase.pop('history', None)
             fo = fresh_solver(fcase)
+            fo.noise_var = nvs
             fch = MU()
             fch.init_from_channel_matrix(full_now, np.ones(K, dtype=int) * N, np.ones(K, dtype=int) * N, K, nte)
             fch.noise_var = case['nv']
@@ -1381,7 +1415,8 @@ def index_forms(v):
     for name, f in INDEX_TYPES.items():
         if name == 'bool' and v > 1:
             continue
-        if name in ('int8',) and v > 127 or name == 'uint8' and v > 255 or name == 'int16' and v > 32767:
+        if name in ('int8',) and v > 127 or name == 'uint8' and v > 255 or name == 'int16' and v > 32767 or \
+                name in ('uint16', '0d-uint16') and v > 65535:
             continue
         out.append((name, f(v)))
     return out
@@ -1482,7 +1517,11 @@ def large_property_checks(case, h, ms_blocks, what, exact_power=True):
         if l_ / max(o_, 1e-300) > worst[0]:
             worst = (l_ / max(o_, 1e-300), k)
         col += w
-    if not leak <= (1e-9 * tol_scale(h)) ** 2 * max(own, 1e-300) * K:
+    amp = 1e-9 * tol_scale(h)
+    if what.endswith('white') and 'E' in case:      # null spaces computed on the whitened channel: its conditioning enters
+        e = dec(case['E'])
+        amp *= math.sqrt(1.0 + case['pe'] * max(nrm(blk(e, k, N, 0)) ** 2 for k in range(K)) / case['nv'])
+    if not leak <= amp ** 2 * max(own, 1e-300) * K * N:
         return ('R14:interference:%s:user%s' % (what, '>=257' if worst[1] >= 257 else '<=256'),
                 'K=%d N=%d: leaked / own energy = %.3e (worst: the streams of user %d, %.3e)' % (K, N, leak / max(own, 1e-300), worst[1], worst[0]))
     pw = np.array([nrm(m) ** 2 for m in ms_blocks])
@@ -2788,7 +2827,8 @@ def count_oracles(ctx):
     """R9 / R14 (+ R8, R13 oracles that need no large matrices)"""
     g = Gen(ctx.rng.fork('counts'))
     quick = ctx.tier == 'quick'
-    for size in ['small'] * (4 if quick else 30) + ['big'] * (2 if quick else 12) + ['huge'] * (1 if quick else 3):
+    for size in ['small'] * (4 if quick else 30) + ['medium'] * (2 if quick else 12) + ['big'] * (2 if quick else 12) + \
+            ['huge'] * (1 if quick else 3):
         case = g.index_case(size)
         run_oracle(ctx, 'robust.index', case)
         ctx.branch('oracle:R9:index-forms:' + size)
@@ -2829,7 +2869,7 @@ def corr_index(ctx, drv):
     g = Gen(ctx.rng.fork('corr-index'))
     quick = ctx.tier == 'quick'
     lines, judges = [], []
-    for size in ['small'] * 3 + ['big'] * (2 if quick else 6) + ['huge']:
+    for size in ['small'] * 3 + ['medium'] * 2 + ['big'] * (2 if quick else 6) + ['huge']:
         case = g.index_case(size)
         K, N = case['K'], case['N']
         o = bd.BlockDiagonalizer(typed(case, 'K', K), 1.0, 1.0)
@@ -2882,7 +2922,7 @@ ROBUST_BRANCHES = [
     'scale:1e-12', 'scale:1e+12',
     # R8 - R14
     'oracle:R8:argument-forms', 'oracle:R8:constructor-forms', 'oracle:R9:index-forms:small', 'oracle:R9:index-forms:big',
-    'oracle:R9:index-forms:huge', 'oracle:R10:count-collections', 'oracle:R12:dict-order', 'oracle:R13:derived-objects',
+    'oracle:R9:index-forms:huge', 'oracle:R9:index-forms:medium', 'oracle:R10:count-collections', 'oracle:R12:dict-order', 'oracle:R13:derived-objects',
     'oracle:R14:users>256:row-bookkeeping', 'oracle:R14:users>256:downstream', 'oracle:R14:users>256:whole-method',
     'oracle:R14:antennas>256', 'corr:R8:constructor-forms', 'corr:R9:index-forms:big', 'corr:R9:index-forms:huge',
     'corr:R10:count-collections', 'corr:R12:dict-order', 'corr:R13:derived-objects', 'corr:R14:users>256:row-bookkeeping',
